@@ -232,6 +232,39 @@ func run(t world.T, cs caseSpec, choose sched.Chooser) execResult {
 			}
 		}
 	}
+	// a secret that a melt accepted (payment in flight or succeeded) is locked or spent, whatever the other requests
+	// did on their way out - and a further spend of it, after everything has settled down, is refused
+	for ix, fp := range funded {
+		acceptedBy := ""
+		for i, r := range cs.Reqs {
+			if !res.outs[i].accepted {
+				continue
+			}
+			for _, j := range r.Inputs {
+				if j == ix {
+					acceptedBy = r.Kind
+					if r.Kind == "melt" {
+						acceptedBy += "_" + r.LN
+					}
+				}
+			}
+		}
+		if acceptedBy == "" {
+			continue
+		}
+		if st[ix].State.String() == "UNSPENT" {
+			res.violation = "C01|sched|accepted_secret_reported_unspent|by=" + acceptedBy
+			res.detail = fmt.Sprintf("secret #%d was accepted by %s but is reported UNSPENT once all requests have returned; outcomes %s; schedule: %s", ix, acceptedBy, fmtOutcomes(res.outs), res.trace)
+			return res
+		}
+		in := cashu.Proofs{fp.P}
+		fee := w.FeeFor(in)
+		if _, err := w.Mint.Swap(in, world.Msgs(w.MakeOutputs(world.Split(fp.P.Amount-fee), w.ActiveID))); err == nil {
+			res.violation = "C01|sched|accepted_secret_spendable_again|by=" + acceptedBy
+			res.detail = fmt.Sprintf("secret #%d was accepted by %s and a later swap of it succeeded; outcomes %s; schedule: %s", ix, acceptedBy, fmtOutcomes(res.outs), res.trace)
+			return res
+		}
+	}
 	return res
 }
 
